@@ -615,19 +615,20 @@ func c34Corpus() []c34Case {
 	hdrHuge := append([]byte{24, 0, 0, 0, 1, 1}, append(vdVarint(1<<31-1), 0, 0, 0, 0, 0)...)
 	hdrMid := append([]byte{24, 0, 0, 0, 1, 1}, append(vdVarint(1<<26), 0, 0, 0, 0, 0)...)
 	return []c34Case{
-		{"corpus-hdr-count-minus1", "segment", seg(1, hdrMinus1)},
-		{"corpus-record-count-maxint32", "segment", seg(0x7fffffff, hdrMinus1)},
-		{"corpus-record-count-2^24", "segment", seg(1<<24, hdrMinus1)},
-		{"corpus-record-len-2^40", "segment", seg(1, append(vdVarint(1<<40), 0, 0, 0, 1, 1, 0))},
-		{"corpus-record-len-2^27", "segment", seg(1, append(vdVarint(1<<27), 0, 0, 0, 1, 1, 0))},
-		{"corpus-key-len-maxint32", "segment", seg(1, keyHuge)},
-		{"corpus-key-len-2^40", "segment", seg(1, keyHuge40)},
-		{"corpus-hdr-count-maxint32", "segment", seg(1, hdrHuge)},
-		{"corpus-hdr-count-2^26", "segment", seg(1, hdrMid)},
-		{"corpus-index-count-minus1", "index", c34Index(0xffffffff, 0)},
-		{"corpus-index-count-maxint32", "index", c34Index(0x7fffffff, 1)},
-		{"corpus-index-count-2^24", "index", c34Index(1<<24, 2)},
 		{"corpus-valid-record", "segment", seg(1, []byte{20, 0, 4, 0, 1, 0, 2, 2, 107, 2, 118})},
+		{"corpus-hdr-count-minus1", "segment", seg(1, hdrMinus1)},
+		{"corpus-index-count-minus1", "index", c34Index(0xffffffff, 0)},
+		{"corpus-record-count-2^24", "segment", seg(1<<24, hdrMinus1)},
+		{"corpus-record-len-2^27", "segment", seg(1, append(vdVarint(1<<27), 0, 0, 0, 1, 1, 0))},
+		{"corpus-hdr-count-2^26", "segment", seg(1, hdrMid)},
+		{"corpus-index-count-2^24", "index", c34Index(1<<24, 2)},
+		// the following can end an UNPATCHED decoder process with a fatal out-of-memory error
+		{"corpus-key-len-maxint32", "segment", seg(1, keyHuge)},
+		{"corpus-hdr-count-maxint32", "segment", seg(1, hdrHuge)},
+		{"corpus-index-count-maxint32", "index", c34Index(0x7fffffff, 1)},
+		{"corpus-record-len-2^40", "segment", seg(1, append(vdVarint(1<<40), 0, 0, 0, 1, 1, 0))},
+		{"corpus-key-len-2^40", "segment", seg(1, keyHuge40)},
+		{"corpus-record-count-maxint32", "segment", seg(0x7fffffff, hdrMinus1)},
 	}
 }
 
@@ -700,6 +701,7 @@ func c34Gen(r *vRand) c34Case {
 
 func TestVerifC34Storage(t *testing.T) {
 	rep := vNewReport("C34", fmt.Sprintf("arbitrary bytes, mutated valid segments, broker-written segments whose record bodies are hostile/arbitrary client bytes, crafted index files, run through the real collectRecoverableBatches (3 cutoffs) and ParseIndex under recover(); oracle: no panic, bytes allocated (runtime.MemStats.TotalAlloc delta) <= %d*len(input)+%d, no call slower than 5s; non-trivial = input passes the size/magic checks", vdAllocC, vdAllocSlack))
+	rep.CaseFiles = []string{} // partial reports written before Cases() must stay well-formed
 	var coq, jsons []string
 	var inputs []vdInput
 	runOne := func(cs c34Case) {
